@@ -17,9 +17,10 @@ def run(ctx):
           "closable": ctx.corr("closable / today_closable", "the real position's closable and today_closable at every validation vs model `posClosable/posTodayClosable` from the position's fields and the open closing orders")}
     def gen(rnd, k):
         import bundle as B, trading
-        S = B.gen_market(rnd, ndays=rnd.randrange(10, 26), with_future=True if k % 5 == 2 else None)
+        S = B.gen_market(rnd, ndays=rnd.randrange(10, 26), with_future=True if (k % 5 == 2 or k % 4 == 1) else None, opts={"p_div": 1.0, "p_split": 0.2, "p_delist": 0.05} if k % 4 == 3 else None)
         S["_plan_generic_close"] = True       # only this check's stream runs the scenarios of the repaired finding F12 (a CLOSE reaching into today's lots + a CLOSE_TODAY resting together)
-        cfgk = trading.gen_config(rnd, S, {"p_init_pos": 0.2, "pos_roundtrip": True})
+        cfgk = trading.gen_config(rnd, S, {"p_init_pos": 0.2, "pos_roundtrip": True, "fut_plan": "split_close" if (k % 4 == 1 and S["futures"]) else None,
+                                             "sell_on_payable": k % 4 == 3, "p_reinvest": 1.0 if k % 4 == 3 else 0.25})
         # the two position-validation switches are independent: one of them off must not silence the other
         sw = rnd.random()
         if sw < 0.2:
